@@ -317,11 +317,10 @@ func decodeContext(c interface{}) ([]string, []interface{}, error) {
 }
 
 func safeStringValue(v interface{}) string {
-	if v == nil {
-		return ""
-	}
+	// the value comes from a decoded proof object: anything but a string is treated like an absent member
+	s, _ := v.(string) //nolint:errcheck
 
-	return v.(string)
+	return s
 }
 
 func proofsToRaw(proofs []Proof) ([]byte, error) {
